@@ -314,6 +314,10 @@ class CGen:
                 self.function()
             self.emit(0, "}")
             return self.out
+        if r.random() < 0.5:
+            # the same header in both branches of a conditional: neither #include is redundant
+            self.emit(0, "#ifdef CGEN_NEVER_DEFINED\n#include <limits.h>\n#else\n#include <limits.h>\n#endif")
+            self.emit(0, "int lim = INT_MAX ;")
         self.emit(0, "#include <stddef.h>")
         if r.random() < 0.5:
             self.emit(0, "#include <stddef.h>")
